@@ -310,3 +310,58 @@ def decimal_cases(rng, n):
             pres.append(("(newtype_struct %s (str %s))" % (C.hx("Decimal"), C.hx(dec_str(m, scale))), True))
         out.append((nodes, "(decimal %d 0)" % m, pres))
     return out
+
+
+def plain_union_case(rng, pair=None, wrapper=None):
+    """Unions that are NOT of the shape [null,T] / [T,null] and that a Rust type may still hold as Option<enum>:
+    two branches none of which is null (every pair of leaf kinds is reachable; `pair` = indices into
+    G.leaf_kind_schemas() for the directed enumeration), one branch, three branches with or without null; at the
+    root, in an array / map / record field / array of records. -> nodes (root = node 0)"""
+    leaves = [(lab, ns[0]) for lab, ns in G.leaf_kind_schemas() if not lab.startswith("unknown-logical")]
+    b = Builder()
+    def leaf(i):
+        lab, n = leaves[i]
+        return N(n.t, name=n.name, symbols=n.symbols, size=n.size, lt=n.lt)
+    def branch_kind(n):
+        if n.t == "fixed" and n.kind() == "duration":
+            return "duration"
+        if n.t in ("record", "enum", "fixed"):
+            return "named:" + n.name
+        return n.t if n.kind() == n.t else n.kind()
+    if pair is not None:
+        cand = [leaf(pair[0]), leaf(pair[1])]
+    else:
+        r = rng.random()
+        cnt = 2 if r < 0.6 else (1 if r < 0.7 else 3)
+        cand = [leaf(rng.randrange(len(leaves))) for _ in range(cnt)]
+        if cnt == 3 and rng.random() < 0.5:
+            cand[rng.randrange(3)] = N("null")
+        if rng.random() < 0.3:
+            i = b.add(N("int"))
+            cand[rng.randrange(len(cand))] = rng.choice([
+                N("record", name="ns.Rec", fields=[("a", i)]), N("array", items=i), N("map", values=i)])
+    seen, keys = set(), []
+    for n in cand:
+        bk = branch_kind(n)
+        if bk in seen or (n.t == "null" and pair is not None):
+            continue
+        seen.add(bk)
+        keys.append(b.add(n))
+    if len(keys) == 2 and any(b.nodes[k].t == "null" for k in keys):
+        keys = [k for k in keys if b.nodes[k].t != "null"]
+    u = b.add(N("union", variants=keys))
+    return wrap_root(rng, b, u, wrapper or rng.choice(["root", "root", "array", "map", "record", "rows"]))
+
+
+def zero_byte_cases():
+    """schemas whose every datum is ZERO bytes long (null, records without fields / of nulls / of such records, fixed of
+    size 0 and records of them), with the value: a message or a block can then end exactly where its header ends.
+    -> [(nodes, evalue)]"""
+    return [
+        ([N("null")], "null"),
+        ([N("record", name="Empty", fields=[])], "(record)"),
+        ([N("record", name="ns.Nulls", fields=[("a", 1), ("b", 1)]), N("null")], "(record null null)"),
+        ([N("record", name="ns.Outer", fields=[("inner", 1), ("n", 2)]), N("record", name="ns.Inner", fields=[]), N("null")], "(record (record) null)"),
+        ([N("fixed", name="F0", size=0)], "(fixed x)"),
+        ([N("record", name="WithF0", fields=[("f", 1), ("g", 1), ("n", 2)]), N("fixed", name="ns.F0", size=0), N("null")], "(record (fixed x) (fixed x) null)"),
+    ]
